@@ -9,6 +9,21 @@ open Sorter
 
 variable {F : BodyFn} {P : Project} {g : G} {cfg : Cfg}
 
+theorem count_eq_one_of_nodup {a : Nat} : ∀ {l : List Nat}, l.Nodup → a ∈ l → l.count a = 1
+  | [], _, h => by cases h
+  | b :: l, hn, h => by
+    have hn' := List.nodup_cons.1 hn
+    by_cases hab : b = a
+    · subst hab
+      have : l.count b = 0 := List.count_eq_zero.2 hn'.1
+      simp [this]
+    · have hm : a ∈ l := by
+        rcases List.mem_cons.1 h with h | h
+        · exact absurd h.symm hab
+        · exact h
+      rw [List.count_cons_of_ne hab]
+      exact count_eq_one_of_nodup hn'.2 hm
+
 /-- The tasks that have a report are the picks, in order — all of them unless the last protocol
 crashed in `update_states_in_database`. -/
 theorem Run.report_keys {so : Sorter} {s : Sess} {picks : List Nat} {so' : Sorter} {s' : Sess}
